@@ -366,7 +366,12 @@ class Generator:
                 co += canary
         it.canary_full = join(co)
         it.n_canaries = len(cpos)
-        it.stub = '#[verifier::external_body]\n' + join(header) + '{ unimplemented!() }\n'
+        if it.kind == 'const' and impl is None:
+            # module-level `exec const`: rustc const-evaluates the initialiser even under external_body,
+            # so the stub keeps the real initialiser (trusted outside the home unit, proved inside it)
+            it.stub = '#[verifier::external_body]\n' + it.full + '\n'
+        else:
+            it.stub = '#[verifier::external_body]\n' + join(header) + '{ unimplemented!() }\n'
         gt = []
         for _, g in ghosts:
             gt += g
@@ -438,6 +443,10 @@ class Generator:
                         emit(body, it if own else None)
                         emit('}')
                     else:
+                        if it.kind == 'fn' and it.modpath and it.header_tokens and it.header_tokens[0] != 'pub':
+                            # private free fn of a module (e.g. buint::radix::ilog2): the impl blocks that call it are
+                            # emitted at the crate root, so widen its visibility in the generated file (emission only)
+                            body = re.sub(r'(?m)^(?=(const |unsafe |fn ))', 'pub ', body, count=1)
                         emit(body, it if own else None)
             for k, sub in node.items():
                 if k == 'items':
